@@ -210,6 +210,10 @@ class ExecBase:
         sub = source.load_module(f"{base}.{nm}")
         if sub is not None:
             return ModuleRef(f"{base}.{nm}")
+        for sm in m.star:  # from .x import *
+            r = self.resolve_import(("attr", sm, nm))
+            if not isinstance(r, ExtRef):
+                return r
         return ExtRef(f"{base}.{nm}")
 
     def class_chain(self, cref: ClassRef):
